@@ -23,7 +23,7 @@ CLAUSE_PROPS = {
     "entries": ["C07"], "stamp": ["C07"], "track_nlv": ["C07"], "track_trades": ["C07"], "track_costs": ["C07"],
     "reward": ["C07"], "compound": ["C07"], "pos": ["C07"], "frames": ["C07"], "track_holdings": ["C07"],
     "broke_traded": ["C09"], "ruin_step": ["C09"], "ended": ["C09"], "done": ["C09"], "signal": ["C09"],
-    "roll": ["C11"], "expiry_hold": ["C11"],
+    "roll": ["C11"], "expiry_hold": ["C11"], "env_interest": ["C06"],
     "out": [],
 }
 
@@ -180,6 +180,9 @@ def compare_step(w, rec, out, val, before):
                     if abs(wt * nl - vv) > 1e-9 * max(1.0, abs(vv)):
                         fails.append(("track_holdings", "entry reports %s-trade weight %s = %r but value / NLV = %r" % (tag, n, wt, vv / nl if nl else None), ""))
         comm = sum(t.cost_of_commissions for t in e.trades)
+        if not close(e.profit_on_idle_cash, frac(rec["interest"])):
+            fails.append(("env_interest", "interest credited for the period before this execution %r, the published rate gives %s" % (
+                e.profit_on_idle_cash, frac(rec["interest"])), ""))
         if not close(comm, frac(rec["comm"])) or not close(e.profit_on_idle_cash, frac(rec["interest"])):
             fails.append(("track_costs", "entry reports commissions %r and interest %r, spec %s and %s" % (
                 comm, e.profit_on_idle_cash, frac(rec["comm"]), frac(rec["interest"])), ""))
